@@ -17,7 +17,7 @@ SHARED = {
     "C02": [("C08", "R08j"), ("C06", "R06d"), ("C07", "R07f"), ("C13", "R13f"), ("C13", "R13g"), ("C06", "R06e")],
     "C03": [("C08", "R08j"), ("C15", "R15b"), ("C15", "R15c"), ("C16", "R16c"), ("C16", "R16f"), ("C01", "R01c"), ("C05", "R05a"), ("C05", "R05b"), ("C16", "R16a"), ("C05", "R05c"), ("C15", "R15e"), ("C06", "R06b"), ("C01", "R01h")],
     "C04": [("C02", "R02d"), ("C11", "R11c"), ("C10", "R10a"), ("C14", "R14b")],
-    "C07": [("C12", "R12a"), ("C12", "R12g"), ("C12", "R12h")],
+    "C07": [("C20", "R20k"), ("C12", "R12a"), ("C12", "R12g"), ("C12", "R12h")],
     "C08": [("C20", "R20i"), ("C20", "R20g")],
     "C09": [("C20", "R20i")],
     "C10": [("C09", "R09c"), ("C09", "R09f")],
@@ -25,7 +25,7 @@ SHARED = {
     "C18": [("C10", "R10f"), ("C20", "R20g"), ("C20", "R20f"), ("C09", "R09b")],
     "C05": [("C16", "R16f"), ("C03", "R03g")],
     "C06": [("C08", "R08j"), ("C16", "R16a"), ("C16", "R16e"), ("C16", "R16c"), ("C16", "R16f"), ("C13", "R13f"), ("C03", "R03b"), ("C08", "R08g"), ("C19", "R19b")],
-    "C12": [("C11", "R11a"), ("C11", "R11b"), ("C11", "R11c"), ("C11", "R11e"), ("C13", "R13a"), ("C13", "R13b"), ("C07", "R07e"), ("C07", "R07a"), ("C11", "R11f"), ("C09", "R09f"), ("C11", "R11g")],
+    "C12": [("C20", "R20k"), ("C11", "R11a"), ("C11", "R11b"), ("C11", "R11c"), ("C11", "R11e"), ("C13", "R13a"), ("C13", "R13b"), ("C07", "R07e"), ("C07", "R07a"), ("C11", "R11f"), ("C09", "R09f"), ("C11", "R11g")],
     "C13": [("C08", "R08j"), ("C16", "R16c"), ("C16", "R16d"), ("C16", "R16f"), ("C02", "R02g")],
     "C14": [("C07", "R07e"), ("C04", "R04d"), ("C10", "R10a")],
     "C15": [("C08", "R08j"), ("C08", "R08g")],
